@@ -19,9 +19,10 @@ from __future__ import annotations
 import sys
 import unicodedata
 from abc import abstractmethod
+from fractions import Fraction
 from functools import reduce
 from itertools import chain, groupby
-from numbers import Rational
+from numbers import Integral, Rational
 from operator import mul
 from typing import (
     Any, Callable, Generator, Iterable, Iterator, List, Optional, Sequence,
@@ -174,7 +175,7 @@ class Term(ItemSequenceT[T]):
                 return tuple(_filter_items(((elem2, exp2), (elem1, exp1))))
             # least relevant case: 2 numeric elements
             if isinstance(elem1, Rational) and isinstance(elem2, Rational):
-                num: Rational = elem1 ** exp1 * elem2 ** exp2
+                num: Rational = _pow(elem1, exp1) * _pow(elem2, exp2)
                 if num != 1:
                     return (num, 1),
         # more than 2 items or number of items unknown:
@@ -227,7 +228,7 @@ class Term(ItemSequenceT[T]):
             else:  # numerical elements
                 group_it = cast(Iterator[Tuple[int, Tuple[Rational, int]]],
                                 group_it)
-                num_elem = reduce(mul, (elem ** exp
+                num_elem = reduce(mul, (_pow(elem, exp)
                                         for _, (elem, exp) in group_it),
                                   num_elem)
         if num_elem != 1:
@@ -270,7 +271,7 @@ class Term(ItemSequenceT[T]):
             pass
         else:
             if isinstance(elem, Rational):
-                return cast(Rational, elem ** exp)
+                return _pow(elem, exp)
         return None
 
     def split(self, dflt_num: Rational = ONE) \
@@ -408,6 +409,13 @@ class Term(ItemSequenceT[T]):
 
 
 # helper functions
+
+def _pow(num: Rational, exp: int) -> Rational:
+    # Return num ** exp as exact number (int ** -n would give a float)
+    if exp < 0 and isinstance(num, Integral):
+        return Fraction(1, num) ** -exp
+    return cast(Rational, num ** exp)
+
 
 def _filter_items(items: ItemIterableT[T]) \
         -> Generator[ItemT[T], None, None]:
